@@ -22,7 +22,21 @@ for logs in (False, True):
         add_query(HARNESSES, QUERIES, logs, q, b, k, 0, 0, 'h_shutdown', 'shutdown_call', tier)
     add_query(HARNESSES, QUERIES, logs, 4, 2, 3, 0, 6, 'h_shutdown', 'shutdown_two_callers', 'quick')
     add_query(HARNESSES, QUERIES, logs, 4, 2, 3, 2, 0, 'h_shutdown', 'shutdown_with_waiting_flush', 'quick' if not logs else 'thorough')
+def hp(t, i, w=1):
+    return dict(src='c02_periodic.cc', defines=['TICKETS=%d' % t, 'INTERFERE=%d' % i, 'WMODE=%d' % w, 'OTEL_INTERNAL_LOG_LEVEL=0'], models=BATCH_MODELS + ['future_once.c', SP_LEAK_MODEL], overrides=[SP_RELEASE], roots=['verif_worker_step', 'verif_thread_run'],
+                native_mode='generated_c', ir2c_flags=['--new-array-max', '136'], model_defines=['VERIF_NEW_ARRAY_MAX=136', 'VERIF_THREAD_RUN_AT_START', 'pthread_once=verif_pthread_once', '__once_proxy=verif_once_proxy', '_ZSt11__once_call=verif_once_call', '_ZSt15__once_callable=verif_once_callable'])
+for (t, i, tier) in ((0, 0, 'thorough'), (2, 0, 'quick'), (0, 1, 'quick'), (2, 1, 'thorough')):
+    HARNESSES['c02_per_t%di%d' % (t, i)] = hp(t, i)
+    QUERIES.append(dict(name='periodic_collect_cycle_t%di%d' % (t, i), harness='c02_per_t%di%d' % (t, i), entry='h_collect_cycle', unwind=8, unwindset=BATCH_US, rec_unwind=3, timeout=600, tier=tier,
+                        shape='PeriodicExportingMetricReader::CollectAndExportOnce: %s; %s' % (('no flush requested', '', 'a ForceFlush waiting when the cycle starts')[t], ('no interference', 'a measurement is recorded and a ForceFlush ticket taken while the cycle is inside Export, then a second cycle')[i])))
+for w in (1, 0):
+    HARNESSES['c02_per_w%d' % w] = hp(0, 0, w)
+    QUERIES.append(dict(name='periodic_force_flush_w%d' % w, harness='c02_per_w%d' % w, entry='h_reader_force_flush', unwind=8, unwindset=BATCH_US, rec_unwind=3, timeout=600, tier='quick' if w else 'thorough',
+                        optional_reach=([] if w else ['periodic reader ForceFlush true: everything recorded before the call was handed to Export', "periodic reader ForceFlush true: the exporter's ForceFlush was invoked"]),
+                        shape='MetricReader::ForceFlush on a periodic reader (1 s budget); the worker %s while the caller waits' % ('runs one collect/export cycle' if w else 'never runs (clock advances >= 2 s per reading)')))
+    QUERIES.append(dict(name='periodic_shutdown_w%d' % w, harness='c02_per_w%d' % w, entry='h_reader_shutdown', unwind=8, unwindset=BATCH_US, rec_unwind=3, timeout=600, tier='quick' if w else 'thorough',
+                        shape='MetricReader::Shutdown on a periodic reader; the joined worker %s; then a ForceFlush call' % ('finishes one more cycle' if w else 'is idle')))
 BOUNDS = ['batch processors (span and log): max_queue_size 2..4, max_export_batch_size 1..4, 0..4 records, concrete shape per query; ForceFlush with timeout in {0 (=unlimited), 1000 us, max}; condition waits may time out or not', 'MultiSpanProcessor with 1..3 children (quick: 2 and 3) and MultiLogRecordProcessor with 2..3 children (quick: 2); one ForceFlush and one Shutdown; timeouts < 2^62 us or unlimited']
 OUTSIDE = ['real interleavings of ForceFlush / Shutdown callers with the worker: the worker is sequentialised (its Export / DrainQueue steps run where the caller blocks or are called directly; concurrent producers and ForceFlush tickets act at the points where the worker is inside the exporter); two Shutdown calls racing each other',
-           'periodic metric reader, TracerProvider/LoggerProvider/MeterProvider forwarding', 'termination (liveness)']
+           'the periodic reader DoBackgroundWork loop itself (its cycle CollectAndExportOnce is run directly) and the export_timeout path of a slow Collect (the collect thread body runs synchronously, so the future is always ready); TracerProvider/LoggerProvider/MeterProvider forwarding', 'termination (liveness)']
 ASSUMPTIONS = ['operator new never fails'] + BATCH_ASSUMPTIONS
